@@ -9,6 +9,8 @@ package doccomposer
 import (
 	"encoding/json"
 	"fmt"
+	"strconv"
+	"strings"
 
 	jsonpatch "github.com/evanphx/json-patch"
 
@@ -116,7 +118,73 @@ func applyJSONPatches(jsonPatches jsonpatch.Patch, docBytes []byte) (result []by
 		}
 	}()
 
-	return jsonPatches.Apply(docBytes)
+	// The json-patch library copies by reference: after a "copy" the source and the destination are one shared
+	// node, and a node that ends up inside itself makes the library recurse until the stack is exhausted (which
+	// cannot be recovered). Each operation is therefore applied to freshly decoded document bytes, so that no
+	// node is shared between operations, and a "copy" of a value into itself is refused.
+	for i := range jsonPatches {
+		if err := validateCopy(jsonPatches[i]); err != nil {
+			return nil, err
+		}
+
+		docBytes, err = jsonPatches[i : i+1].Apply(docBytes)
+		if err != nil {
+			return nil, err
+		}
+	}
+
+	return docBytes, nil
+}
+
+// validateCopy refuses a "copy" operation whose source contains its destination ("from" is a proper prefix of "path").
+func validateCopy(op map[string]*json.RawMessage) error {
+	if stringMember(op, "op") != "copy" {
+		return nil
+	}
+
+	from, path := stringMember(op, "from"), stringMember(op, "path")
+
+	fromTokens := strings.Split(from, "/")[1:]
+	pathTokens := strings.Split(path, "/")[1:]
+
+	if len(fromTokens) >= len(pathTokens) {
+		return nil
+	}
+
+	for i, token := range fromTokens {
+		if !sameToken(token, pathTokens[i]) {
+			return nil
+		}
+	}
+
+	return fmt.Errorf("%s: cannot copy '%s' into itself: '%s'", patch.JSONPatch, from, path)
+}
+
+func stringMember(op map[string]*json.RawMessage, name string) string {
+	var value string
+
+	if msg, ok := op[name]; ok && msg != nil {
+		if err := json.Unmarshal(*msg, &value); err != nil {
+			return ""
+		}
+	}
+
+	return value
+}
+
+var pointerTokenDecoder = strings.NewReplacer("~1", "/", "~0", "~")
+
+// sameToken returns true if two JSON pointer reference tokens (RFC 6901) can address the same member of an object
+// or the same element of an array (array elements are addressed by number: "1" and "01" are the same element).
+func sameToken(a, b string) bool {
+	if pointerTokenDecoder.Replace(a) == pointerTokenDecoder.Replace(b) {
+		return true
+	}
+
+	indexA, errA := strconv.Atoi(a)
+	indexB, errB := strconv.Atoi(b)
+
+	return errA == nil && errB == nil && indexA == indexB
 }
 
 func applyRecover(replaceDoc interface{}) (document.Document, error) {
